@@ -105,8 +105,21 @@ func c02LineNumbers(c *Ctx, r *Report) {
 						continue
 					}
 					okAdv := false
+					// x += e, or the spelled-out x = x + e / x = e + x
+					var addend ast.Expr
 					if t.Tok == token.ADD_ASSIGN && len(t.Rhs) == 1 {
-						if conv, ok := ast.Unparen(t.Rhs[0]).(*ast.CallExpr); ok && isConversion(info, conv) && len(conv.Args) == 1 {
+						addend = t.Rhs[0]
+					} else if t.Tok == token.ASSIGN && len(t.Rhs) == 1 && len(t.Lhs) == 1 {
+						if sum, isSum := ast.Unparen(t.Rhs[0]).(*ast.BinaryExpr); isSum && sum.Op == token.ADD {
+							if identObj(info, sum.X) == startObj {
+								addend = sum.Y
+							} else if identObj(info, sum.Y) == startObj {
+								addend = sum.X
+							}
+						}
+					}
+					if addend != nil {
+						if conv, ok := ast.Unparen(addend).(*ast.CallExpr); ok && isConversion(info, conv) && len(conv.Args) == 1 {
 							if ln, ok := ast.Unparen(conv.Args[0]).(*ast.CallExpr); ok && calleeName(info, ln) == "builtin.len" && identObj(info, ln.Args[0]) == batchObj {
 								okAdv = true
 							}
